@@ -44,6 +44,13 @@
   * `hex_literal_needs_base0`, `numeric_arguments_decimal_and_hex`, `numeric_arguments_accept_hex`,
     `argConvs_asShipped_counterexample`   `int(s)` rejects every `0x…` literal, `int(s, 0)` reads decimal and
                                           hex; as shipped six handler arguments and `-b` use `int(s)`
+  * `channel_option_takes_effect`, `no_channel_no_bridge`, `explicit_routing_kept`,
+    `channel_option_intended_examples`, `channel_option_asShipped_counterexample`
+                                          `-t T -b B` reaches controller T over channel B (two hops, any order);
+                                          as shipped `-b` wrote ONE hop to "address" B over channel 0
+  * `aardvark_options_take_effect`, `aardvark_guard_loses_off`, `aardvark_off_asShipped_counterexample`
+                                          `Aardvark.open` writes every given pullups / power / fastmode value
+                                          (27 combinations); truthiness guards lose exactly `off`
   * `portstate_no_python_error`, `sdr_show_no_python_error`, `sdr_show_state_no_python_error`,
     `sensor_values_no_python_error`, `lin_domain`
     (+ `…_asShipped_counterexample`)      the printing handlers on a channel without link, on SDR types
@@ -443,6 +450,117 @@ theorem argConvs_asShipped_counterexample :
   rw [hb]
   exact pyInt10_rejects_hex 120 (.inl rfl) _
 
+/-! ### `-b <channel>` ("Set target channel") and the aardvark interface options -/
+
+/-- the hops a routing value of the model denotes -/
+def hopsOf : Val → Option (List (Int × Int × Option Int))
+  | .route a b c => some [(a, b, some c)]
+  | .route2 a b c d e => some [(a, b, some c), (d, e, none)]
+  | _ => none
+
+/-- where the requests of a run go, by the specification's reading of a path -/
+def destinationOfRouting (v : Val) : Option Spec.Cli.Destination := (hopsOf v).bind Spec.Cli.reaches
+
+/-- INTENDED (`MainShape.bridge` present - the harness probes it on the source, probe field `bridge`): with a target
+address `t` and a channel `b` given and no explicit routing, the routing handed to `Target.set_routing` reaches
+the controller `t` over channel `b` - whatever the order of `-t` and `-b` was (the statement works on the final
+values of the variables) -/
+theorem channel_option_takes_effect (sh : MainShape) (vs : List Val) (vc : Nat) (rq1 rs1 rq2 t b : Int)
+    (hb : sh.bridge = some (vc, rq1, rs1, rq2)) (hr : getv vs sh.vRouting = .none)
+    (hc : getv vs vc = .int b) (ht : getv vs sh.vTarget = .int t) :
+    destinationOfRouting (bridgedRouting sh vs) = some (Spec.Cli.destinationOf t (some b)) := by
+  simp [destinationOfRouting, bridgedRouting, hb, hr, hc, ht, hopsOf, Spec.Cli.reaches, Spec.Cli.destinationOf]
+
+/-- … and without `-b` nothing is added: the routing stays what `-r` gave (or None) -/
+theorem no_channel_no_bridge (sh : MainShape) (vs : List Val) (vc : Nat) (rq1 rs1 rq2 : Int)
+    (hb : sh.bridge = some (vc, rq1, rs1, rq2)) (hc : getv vs vc = .none) :
+    bridgedRouting sh vs = getv vs sh.vRouting := by
+  simp only [bridgedRouting, hb, hc]
+  split <;> simp_all
+
+/-- an explicit routing (`-r <literal>`) is handed on exactly as given, with or without `-b` -/
+theorem explicit_routing_kept (sh : MainShape) (vs : List Val) (r : Str) (hr : getv vs sh.vRouting = .str r) :
+    bridgedRouting sh vs = .str r := by
+  unfold bridgedRouting
+  cases sh.bridge with
+  | none => simpa using hr
+  | some q => obtain ⟨vc, rq1, rs1, rq2⟩ := q; simp only [hr]
+
+/-- the repaired `main`: `-b` stores the channel in a variable of its own (11), the bridging statement follows the
+option loop -/
+def intendedBridgeShape : MainShape :=
+  { AsShipped.shape with
+    rules := AsShipped.shape.rules.map fun r => if r.opt == 98 then ⟨98, .assign 11 .int0⟩ else r
+    defaults := AsShipped.shape.defaults ++ [.none]
+    bridge := some (11, 0x81, 0x20, 0x20) }
+
+def routingAfter (sh : MainShape) (opts : List (Nat × Str)) : Option (Val × Option Spec.Cli.Destination) :=
+  match applyOpts sh.rules opts sh.defaults with
+  | .vals vs => some (bridgedRouting sh vs, destinationOfRouting (bridgedRouting sh vs))
+  | _ => none
+
+/-- AS SHIPPED (`-b N` ↦ `target_routing = [(0x20, N, 0)]`): `-t 0x82 -b 7` yields ONE hop whose responder address is
+the channel number; the path ends at slave address 07h with no bridging channel, 82h occurs nowhere - and `-b`
+after `-r` throws the explicit routing away -/
+theorem channel_option_asShipped_counterexample :
+    routingAfter AsShipped.shape [(116, ofString "0x82"), (98, ofString "7")]
+      = some (.route 0x20 7 0, some ⟨7, none⟩)
+    ∧ routingAfter AsShipped.shape [(98, ofString "7"), (116, ofString "0x82")]
+      = some (.route 0x20 7 0, some ⟨7, none⟩)
+    ∧ (some ⟨7, none⟩ : Option Spec.Cli.Destination) ≠ some (Spec.Cli.destinationOf 0x82 (some 7)) := by
+  decide +kernel
+
+/-- the same argument vectors on the repaired `main` (non-vacuity of `channel_option_takes_effect`), `-b` alone, and
+`-r` with `-b` in both orders -/
+theorem channel_option_intended_examples :
+    routingAfter intendedBridgeShape [(116, ofString "0x82"), (98, ofString "7")]
+      = some (.route2 0x81 0x20 7 0x20 0x82, some ⟨0x82, some 7⟩)
+    ∧ routingAfter intendedBridgeShape [(98, ofString "0x7"), (116, ofString "130")]
+      = some (.route2 0x81 0x20 7 0x20 0x82, some ⟨0x82, some 7⟩)
+    ∧ routingAfter intendedBridgeShape [(98, ofString "3")]
+      = some (.route2 0x81 0x20 3 0x20 0x20, some ⟨0x20, some 3⟩)
+    ∧ routingAfter intendedBridgeShape [(116, ofString "0x82")] = some (.none, none)
+    ∧ (routingAfter intendedBridgeShape [(114, ofString "[(1,2,3)]"), (98, ofString "4")]).map (·.1)
+      = some (.str (ofString "[(1,2,3)]"))
+    ∧ (routingAfter intendedBridgeShape [(98, ofString "4"), (114, ofString "[(1,2,3)]")]).map (·.1)
+      = some (.str (ofString "[(1,2,3)]")) := by
+  decide +kernel
+
+/-- Send Message data (IPMI v2.0 §22.7): channel number in the low nibble of byte 1, tracking in [7:6] -/
+example : Spec.Cli.sendMessageData 7 [0x82, 0x18, 0x66] = [0x47, 0x82, 0x18, 0x66] := by decide +kernel
+
+def settingOf : AdapterWrite → Spec.Cli.AdapterSetting
+  | .pullups v => .pullups v
+  | .power v => .power v
+  | .bitrate k => .bitrate k
+
+/-- INTENDED (both guards of `Aardvark.open` are `is not None` - probe fields `pullupsNN`, `powerNN`): for every
+value of the three documented options (on, off, absent) the adapter is written exactly what was given; fast mode
+absent is normal mode (100 kHz) -/
+theorem aardvark_options_take_effect (g : AardvarkGuards) (hp : g.pullupsNotNone = true)
+    (hw : g.powerNotNone = true) (p w f : Option Bool) :
+    (aardvarkOpenWrites g p w f).map settingOf = Spec.Cli.adapterSettings p w (some (f.getD false)) := by
+  obtain ⟨gp, gw⟩ := g
+  simp only at hp hw
+  subst hp hw
+  rcases p with _ | _ | _ <;> rcases w with _ | _ | _ <;> rcases f with _ | _ | _ <;> rfl
+
+/-- AS SHIPPED (`if self.i2c_pullups:` / `if self.target_power:`): `pullups=off` / `power=off` write nothing - the run
+is indistinguishable from one without the option; `on` is written -/
+theorem aardvark_off_asShipped_counterexample :
+    aardvarkOpenWrites ⟨false, false⟩ (some false) none none = aardvarkOpenWrites ⟨false, false⟩ none none none
+    ∧ aardvarkOpenWrites ⟨false, false⟩ none (some false) none = aardvarkOpenWrites ⟨false, false⟩ none none none
+    ∧ (aardvarkOpenWrites ⟨false, false⟩ (some false) (some false) none).map settingOf
+        ≠ Spec.Cli.adapterSettings (some false) (some false) (some false)
+    ∧ (aardvarkOpenWrites ⟨false, false⟩ (some true) (some true) (some true)).map settingOf
+        = Spec.Cli.adapterSettings (some true) (some true) (some true) := by
+  decide +kernel
+
+/-- each guard on its own: a truthiness guard loses exactly the value `off` -/
+theorem aardvark_guard_loses_off (notNone : Bool) (v : Option Bool) :
+    guardPasses notNone v = v.isSome ↔ (notNone = true ∨ v ≠ some false) := by
+  rcases v with _ | _ | _ <;> cases notNone <;> simp [guardPasses]
+
 /-! ### the printing handlers on what a conforming BMC may answer -/
 
 /-- `picmg portstate get` / `getall`: a channel with or without link does not end in a Python error, provided
@@ -641,10 +759,12 @@ private def demoCmd : List Str := [ofString "chassis", ofString "power", ofStrin
 example : (∀ g ∈ demoGiven, g.ok Gen.Cli.shape.optString = true) := by decide +kernel
 example : stops demoCmd = true := by decide +kernel
 example : settingsOf Gen.Cli.shape.rules (demoGiven.map Given.pair)
-    = some [(2, .int 0x82), (6, .str (ofString "admin")), (0, .bool true), (2, .int 0x20)] := by
+    = some [(2, .int 0x82), (Gen.Cli.vars.idxOf "rmcp_user", .str (ofString "admin")), (0, .bool true),
+            (2, .int 0x20)] := by
   decide +kernel
 example : Spec.Cli.lastWins (getv Gen.Cli.shape.defaults)
-    [(2, Val.int 0x82), (6, .str (ofString "admin")), (0, .bool true), (2, .int 0x20)] 2 = .int 0x20 := by
+    [(2, Val.int 0x82), (Gen.Cli.vars.idxOf "rmcp_user", .str (ofString "admin")), (0, .bool true),
+     (2, .int 0x20)] 2 = .int 0x20 := by
   decide +kernel
 example : lookup (nameTable Gen.Cli.commands) (demoCmd ++ [ofString "x"]) = some (25, [ofString "x"]) := by
   decide +kernel
